@@ -13,6 +13,7 @@ import (
 	"unicode/utf16"
 	"unicode/utf8"
 
+	"github.com/foxboron/go-uefi/efi/device"
 	"github.com/foxboron/go-uefi/efi/signature"
 	"github.com/foxboron/go-uefi/efi/util"
 	"github.com/foxboron/go-uefi/efivar"
@@ -149,6 +150,21 @@ func c17Guid(c *hx.Ctx, g util.EFIGUID, wireToo bool) {
 			if !bytes.Equal(b1.Bytes()[:16], w[:]) {
 				bad("signature owner is not Data1..3 little-endian + Data4 on the wire", hx8(b1.Bytes()[:16]), hx8(w[:]))
 				return
+			}
+			// a GUID inside a device-path node (vendor messaging node) has the same in-structure layout
+			{
+				dp := append(append([]byte{3, 10, 20, 0}, w[:]...), 0x7f, 0xff, 4, 0)
+				nodes, err := device.ParseDevicePath(bytes.NewReader(dp))
+				vn, ok := device.EFIDevicePaths(nil), false
+				if err == nil && len(nodes) == 1 {
+					vn = nodes[0]
+				}
+				v, isV := vn.(device.VendorMessagingDevicePath)
+				ok = isV && v.Guid == g
+				if !ok {
+					bad("GUID of a vendor messaging device-path node decoded from wire bytes differs", fmt.Sprint(vn, err), g)
+					return
+				}
 			}
 			// the method twins of the package-level writers
 			if tb := (&signature.SignatureData{Owner: g, Data: []byte{1}}).Bytes(); len(tb) < 16 || !bytes.Equal(tb[:16], w[:]) {
